@@ -139,6 +139,20 @@ def run(P, R, tier):
     R.check(ok, 'C11.c', rp, blk[0].test if blk else None, 'index columns are prepended to a column projection', 'index columns are not prepended to columns=: the index is lost on projection')
     R.check(guard, 'C11.c', rp, blk[0].test if blk else None, 'an index column that is already requested is not added twice', 'an index column listed in columns= is requested twice (the read then fails)')
     okr = any(isinstance(c.func, ast.Attribute) and c.func.attr == 'read' and astq.arg_of(c, kw='columns') is not None and norm(astq.arg_of(c, kw='columns')) == 'columns' for c in astq.own_calls(rp))
+    # (seed S12: pandas metadata lists index columns by FIELD name -- '__index_level_0__' for an unnamed index, whose column entry has name None; dask writes an
+    # unnamed index under the name '__null_dask_index__')
+    R.assume('S12: pandas parquet metadata: index_columns holds field names; columns[i] has name (None for an unnamed index) and field_name; dask names an unnamed index __null_dask_index__')
+    known = [c for c in walk_own(rp.node) if isinstance(c, (ast.SetComp, ast.ListComp, ast.GeneratorExp)) and "'columns'" in norm(c.generators[0].iter)]
+    okf = bool(known) and all('field_name' in norm(c.elt) for c in known)
+    R.check(okf, 'C11.c', rp, known[0] if known else None, 'index columns are matched against the stored FIELD names (an unnamed index is stored as __index_level_0__)',
+            'the stored columns are collected by `name`: the entry of an unnamed index has name None, so its field is never added to the projection and read_parquet(columns=...) '
+            'returns a fresh RangeIndex instead of the stored index', construct='index columns matched by field name')
+    nulls = [c for c in walk_own(rp.node) if isinstance(c, ast.Compare) and any(astq.const_str(x) == '__null_dask_index__' for x in [c.left] + list(c.comparators))]
+    fixes = [a for a in walk_own(rp.node) if isinstance(a, ast.Assign) and isinstance(a.targets[0], ast.Attribute) and a.targets[0].attr == 'name' and 'index' in norm(a.targets[0].value)
+             and norm(a.value) == 'None'] + [c for c in astq.own_calls(rp) if isinstance(c.func, ast.Attribute) and c.func.attr in ('rename_axis', 'rename') and 'None' in norm(c)]
+    R.check(bool(nulls) and bool(fixes), 'C11.c', rp, nulls[0] if nulls else None, 'the name dask gives to an unnamed index (__null_dask_index__) is turned back into "no name"',
+            'read_parquet takes the stored index name literally: a frame written by dask with an unnamed index comes back with its index named __null_dask_index__',
+            construct='dask null index name')
     R.check(okr, 'C11.c', rp, None, 'the projection (with index columns) is what is read', 'dataset.read does not receive the projection', construct='dataset.read(columns=columns)', nontrivial=False)
 
     # ---------------------------------------------------------------- C11.d
